@@ -11,6 +11,8 @@ from .symval import (SymObj, ClassVal, PropertyVal, Closure, BoundMethod, Module
 
 interp_f = sp.Function("interp")
 vec_f = sp.Function("vec")
+pymin = sp.Function("pymin", positive=True)
+pymax = sp.Function("pymax", positive=True)
 
 
 class StrSym:
@@ -114,6 +116,18 @@ def binop(I, op, a, b):
     raise AnalysisError(f"operator {op.__class__.__name__} not modelled")
 
 
+def _minmax(f, es):
+    """Min/Max without sympy's (very slow) pairwise ordering search on symbolic arguments."""
+    es = list(dict.fromkeys(es))
+    if len(es) == 1:
+        return es[0]
+    if all(e.is_number for e in es):
+        return f(*es)
+    # kept as an uninterpreted application in the value graph (sympy's symbolic Min/Max
+    # ordering search is very slow); algebra.is_zero evaluates it at the sample points
+    return (pymin if f is sp.Min else pymax)(*es)
+
+
 def wdep(I, v):
     """Does the value carry a (trailing) array axis, i.e. mention an array symbol?"""
     if isinstance(v, Vec):
@@ -203,7 +217,16 @@ def compare(I, op, a, b):
         raise AnalysisError(f"ordering of {a!r} and {b!r}")
     x, y = to_expr(a), to_expr(b)
     r = {ast.Lt: sp.Lt, ast.Gt: sp.Gt, ast.LtE: sp.Le, ast.GtE: sp.Ge}[type(op)](x, y)
-    return _pb(r)
+    r = _pb(r)
+    if not isinstance(r, bool) and getattr(I, "positive", None):
+        # facts supplied by the rule: expressions known to be positive
+        dpos = x - y if isinstance(op, (ast.Gt, ast.GtE)) else y - x
+        for pexpr in I.positive:
+            if sp.expand(dpos - pexpr) == 0:
+                return True
+            if sp.expand(dpos + pexpr) == 0:
+                return False
+    return r
 
 
 def _pb(r):
@@ -307,6 +330,8 @@ def iterate(I, v):
             return list(I.call(BoundMethod(m, v), [], {}))
     if v is None or (_alg(v) and not any(s in I.arrays for s in to_expr(v).free_symbols)):
         raise SymRaise("TypeError", "object is not iterable")
+    if _alg(v):
+        return [to_expr(v)]      # an array symbol stands for its generic element
     if isinstance(v, SymObj) and v.cls is not None:
         raise SymRaise("TypeError", f"{v!r} is not iterable")
     raise AnalysisError(f"iteration over {v!r} (length unknown)")
@@ -467,7 +492,7 @@ def make_builtins(I):
         if not items:
             raise SymRaise("ValueError", "min of empty sequence")
         es = [to_expr(x) for x in items]
-        return sp.Min(*es)
+        return _minmax(sp.Min, es)
 
     def b_max(*a, key=None):
         items = iterate(I, a[0]) if len(a) == 1 else list(a)
@@ -475,7 +500,7 @@ def make_builtins(I):
             raise AnalysisError("max with key")
         if not items:
             raise SymRaise("ValueError", "max of empty sequence")
-        return sp.Max(*[to_expr(x) for x in items])
+        return _minmax(sp.Max, [to_expr(x) for x in items])
 
     def b_abs(x):
         return _map1(I, sp.Abs)(x)
@@ -515,6 +540,8 @@ def make_builtins(I):
         return sp.Function("int")(e)
 
     def b_isinstance(x, c):
+        if isinstance(x, Phi):
+            return merge(x.cond, b_isinstance(x.a, c), b_isinstance(x.b, c))
         cs = c if isinstance(c, tuple) else (c,)
         for k in cs:
             if isinstance(k, ClassVal):
